@@ -530,9 +530,10 @@ theorem parseObjB_good (max : Nat) : ∀ b, ElemOK max b (parseObjB max b) := by
       have hne' : cur ≠ max := by simpa using hne
       have hw := wsEOL_progress true s i hi
       simp only
+      unfold objParse
       split
       · -- whitespace error (unreachable, but harmless)
-        simp [good]
+        simp [good, leaveObj]
       · rename_i heq; rw [heq] at hw; exact hw.elim
       · rename_i u start heq
         rw [heq] at hw; obtain ⟨w1, w2, -⟩ := hw
@@ -544,7 +545,7 @@ theorem parseObjB_good (max : Nat) : ∀ b, ElemOK max b (parseObjB max b) := by
         | ok v =>
           intro ⟨a1, a2, a3, a4⟩
           subst a1
-          simp [good]
+          simp [good, leaveObj]
           omega
-        | err k => intro a1; subst a1; simp [good]
+        | err k => intro a1; subst a1; simp [good, leaveObj]
         | panic p => intro a1; exact a1.elim
